@@ -258,9 +258,9 @@ def run_inner(pid, tier, seed):
                             "what": "HQConform.tla: reactor entry points, job layer and worker state machine of HQModel applied to the logged "
                                     "pre-state and arguments, compared with the logged post-state (W2S, S2W, Exit, Cancel, Lose steps of single-node configurations)"},
             "mc": {"formulas_of_this_property": mc_formulas(pid),
-                   "runs": [{k: r[k] for k in ("instance", "mode", "cfg", "distinct_states", "states_generated", "depth", "completed", "cached", "constants", "cmd")} for r in mc],
+                   "runs": [{k: r.get(k) for k in ("instance", "mode", "cfg", "distinct_states", "states_generated", "depth", "completed", "time_bounded", "cached", "constants", "cmd")} for r in mc],
                    "distinct_states_total": sum(r["distinct_states"] for r in mc),
-                   "exhaustive_within_constants": all(r["completed"] for r in mc)},
+                   "exhaustive_within_constants": all(r["completed"] for r in mc), "time_bounded_instances": [r["instance"] for r in mc if r.get("time_bounded")]},
             "checker_cmd": "tlc -workers 1 -config HQConform.cfg HQConform.tla (TRACE=<shard>) per shard; tlc -workers 8 -config MC_HQ_<inst>_<mode>.cfg MC_HQ.tla",
             "explanation": "states/transitions = states of real executions on which TLC evaluated every property formula "
                            "(trace validation); model-checking numbers of the design model are reported under 'mc' when present",
